@@ -51,6 +51,13 @@ pub fn layout(name: &str, paths: &[&str], lens: &[usize]) -> CfbLayout {
             l.mini_placement = Some((0..m).rev().collect());
         }
     }
+    if name == "dirgap" {
+        // a free (unused) directory slot directly after the root entry, in front of every stream entry
+        let n = crate::build::cfb::entries(paths).len();
+        let mut order: Vec<Option<usize>> = (0..n).map(Some).collect();
+        order.insert(0, None);
+        l.dir_order = order;
+    }
     if name == "dirrev" {
         let n = crate::build::cfb::entries(paths).len();
         let mut order: Vec<Option<usize>> = (0..n).rev().map(Some).collect();
